@@ -10,12 +10,12 @@ SIZE_MAX = W - 1
 META = {
     "id": "C19", "category": "proof", "design_ref": "DESIGN.md section 4, C19 and section 7 item 1",
     "technique": "Coq proof (invariant over operation histories and schedules, size_t arithmetic mod 2^64 explicit) of a hand-written model of engine_memory.c + exact correspondence (exhaustive-small and random operation sequences, concurrent thread-lock traces) with the code of the working tree + interval/canary oracle on implementation output",
-    "text": ("Proved in Coq of the model Model/Memory.v (non-ASan build, mjREDZONE=0), for every state satisfying the allocator invariant, every size in [0,2^64) and every power-of-two alignment: "
-             "(1) a block returned by mj_stackAllocByte / mj_arenaAllocByte is aligned, lies in [arena+parena, stack top), and lies entirely below every live stack block and frame and above every live arena block (C19_stack_block, C19_arena_block; arena alignment under the hypothesis that d->arena itself is aligned, which mj_makeData provides up to 64); "
-             "(2) for every well-nested sequence of marks, frees, allocations and user writes confined to live blocks, mj_freeStack restores the pstack and pbase of the matching mj_markStack and a balanced sequence returns with the pstack/pbase it started with (C19_mark_free, C19_balanced); "
+    "text": ("Proved in Coq of the model Model/Memory.v (non-ASan build, mjREDZONE=0; variant with the size guards = engine_memory.c as it is since /repo e39ca69d3), for every state satisfying the allocator invariant, EVERY size in [0,2^64) and every power-of-two alignment: "
+             "(1) a block returned by mj_stackAllocByte / mj_arenaAllocByte is aligned, lies in [arena+parena, stack top), and lies entirely below every live stack block and frame and above every live arena block (C19_stack_block, C19_arena_block, C19_mark; arena: alignment + narena <= 2^64, and absolute alignment under the hypothesis that d->arena itself is aligned, which mj_makeData provides up to 64); "
+             "(2) for every well-nested sequence of marks, frees, allocations and user writes confined to live blocks, mj_freeStack restores the pstack and pbase of the matching mj_markStack and a balanced sequence returns with the pstack/pbase it started with (C19_mark_free, C19_balanced, C19_invariant); "
              "(3) exhaustion gives the error outcome (stack) or NULL (arena) with the state unchanged (C19_exhaust_stack, C19_exhaust_arena); "
              "(4) for every interleaving (schedule over any number of threads, SC, one atomic fetch-add per step) of thread-lock reservations the returned blocks are pairwise disjoint and inside the stack region (C19_concurrent), under the stated hypothesis that the reservations do not wrap pstack. "
-             "Items (1) and (3) need a no-wrap side condition on the code as it is (size + alignment <= 2^64, resp. parena + alignment + bytes <= 2^64); without it the statement is FALSE of the model (C19_wrap_refuted, C19_arena_wrap_refuted, C19_tl_wrap_refuted, by computation) and the witness is replayed on the implementation on every run; with the size guard of the proposed repair the same theorems hold for all sizes (C19_*_guarded). "
+             "For the code before the repair (model variant with guards = false) the same statements need size + alignment <= 2^64 (C19_unguarded_*_partial) and are false without it (C19_unguarded_*_refuted, by computation); the witnesses stay in the corpus: the check replays them on the implementation on every run, reports an impl_violation (class size_wrap) if a block is returned, and ties whichever variant the working tree implements. "
              "The model is tied to the working tree by exact comparison of every returned pointer, pstack, parena, pbase, maxuse_stack, maxuse_arena after every operation, and of every fetch-add of concurrent runs. "
              "'Every public engine call returns with the stack pointer it started with' is covered by the balanced-sequence theorem plus (support, not proof) a lexical scan that every function of src/engine and src/user pairs mj_markStack with mj_freeStack on every return path, and by observing pstack/pbase around public API calls on a scene."),
     "note": "Trusted: Coq kernel; hand-written model Model/Memory.v; correspondence harness (gcc, driver c19_mem.c which includes engine_memory.c textually); sequential consistency for the atomic fetch-add; ASan build (red zones) not modelled.",
@@ -332,7 +332,7 @@ def gen_exhaustive(maxlen):
 
 
 def wrap_witnesses():
-    """the C19_wrap_refuted / C19_arena_wrap_refuted / C19_tl_wrap_refuted witnesses and neighbours, smallest first.
+    """the C19_unguarded_*_refuted witnesses and neighbours (size + alignment > 2^64), smallest first.
     (site key, scenario, index of the decisive operation)"""
     w = []
     for k in list(range(0, 7)) + [7, 8, 15]:
@@ -391,7 +391,7 @@ def run(ctx):
                 ctx.violation("impl_violation",
                               dict(s.describe(), failing_op=op_line(s.ops[i]), arena_base=s.base),
                               expected=exp, observed=obs,
-                              theorem={"stack": "C19_wrap_refuted", "arena": "C19_arena_wrap_refuted", "tlock": "C19_tl_wrap_refuted"}[site],
+                              theorem={"stack": "C19_stack_block / C19_unguarded_wrap_refuted", "arena": "C19_arena_block / C19_unguarded_arena_wrap_refuted", "tlock": "C19_concurrent / C19_unguarded_tl_wrap_refuted"}[site],
                               signature=sig,
                               note="size within `alignment` of 2^64: the size_t arithmetic wraps and a block is returned although the request cannot be satisfied")
             elif wrapped and i >= idx:
@@ -401,7 +401,7 @@ def run(ctx):
                               expected=exp, observed=obs, theorem="C19_stack_block/C19_arena_block",
                               signature={"site": osite, "class": cls})
     gflags = tuple("true" if guarded[k] else "false" for k in ("stack", "tlock", "arena"))
-    sup["variant_tied"] = {k: ("size guard present" if v else "no size guard (code as of the pinned commit)") for k, v in guarded.items()}
+    sup["variant_tied"] = {k: ("size guard present" if v else "NO size guard (code before /repo e39ca69d3)") for k, v in guarded.items()}
     sup["wrap_witness_cases"] = len(wit)
     sup["wrap_witness_violations"] = nwrapbad
 
@@ -555,13 +555,13 @@ def concurrent_part(ctx, exe, gflags, quick):
         interleaved += sum(1 for a, b in zip(tids, tids[1:]) if a != b)
         sched = "; ".join("CReserve %d %d %d; CFinish %d" % (c[0], c[1], c[2], c[0]) for c in order)
         done = F.zlist([x for c in reversed(order) for x in (c[1], c[2], 2 if c[5] == 2 else 3, c[6] if c[5] == 2 else 0)])
-        olds = F.zlist([c[3] for c in order])
+        olds = F.zlist([c[3] for c in order if c[3] != SIZE_MAX])
         cases.append("CC %s %d %d %d [%s] %s %s %d" % (gflags[1], base, narena, parena0, sched, done, olds, pfinal))
     pre = ("Inductive ccase := CC (gd : bool) (b na pa : Z) (sched : list cact) (done olds : list Z) (pfinal : Z).\n"
            "Definition flat_done (l : list (Z * Z * res)) : list Z := flat_map (fun d => match d with (s, a, r) => "
            "match r with RPtr p => [s; a; 2; p] | RErr => [s; a; 3; 0] | RNull => [s; a; 1; 0] | RUnit => [s; a; 0; 0] end end) l.\n"
            "Fixpoint olds_of (gd : bool) (b na pa : Z) (c : cst) (l : list cact) : list Z := match l with [] => [] | a :: r => "
-           "let c' := cstep gd b na pa c a in match a with CReserve _ _ _ => c_pstack c :: olds_of gd b na pa c' r | _ => olds_of gd b na pa c' r end end.\n")
+           "let c' := cstep gd b na pa c a in match a with CReserve _ _ _ => if c_pstack c' =? c_pstack c then olds_of gd b na pa c' r else c_pstack c :: olds_of gd b na pa c' r | _ => olds_of gd b na pa c' r end end.\n")
     checker = ("fun c => match c with CC gd b na pa sched done olds pfinal => "
                "let f := crun gd b na pa (mkcst 0 [] []) sched in "
                "zlist_eqb (flat_done (c_done f)) done && (c_pstack f =? pfinal) && zlist_eqb (olds_of gd b na pa (mkcst 0 [] []) sched) olds end")
@@ -662,9 +662,21 @@ def scan_mark_free(ctx):
     return problems
 
 
+def driver_retry(ctx, name, srcs, **kw):
+    """ctx.driver, retried once with a rebuilt library: concurrent checks prune old libmj_nox_*.a files, so the
+    library obtained at the start of a long run can be gone when a second driver is linked"""
+    n = len(ctx.broken)
+    exe = ctx.driver(name, srcs, **kw)
+    if exe is None and len(ctx.broken) > n and "cannot find" in str(ctx.broken[-1][2]):
+        ctx.broken.pop()
+        ctx._lib = None
+        exe = ctx.driver(name, srcs, **kw)
+    return exe
+
+
 def api_part(ctx):
     """pstack/pbase around public API calls on a scene (library code of the working tree)."""
-    exe = ctx.driver("c19_api", ["c19_api.c"])
+    exe = driver_retry(ctx, "c19_api", ["c19_api.c"])
     if exe is None:
         return
     ncalls = 0
